@@ -150,6 +150,9 @@ def run(ctx):
             d = rnd.choice([3, 3, 1, 6])
             with fl.settings.context(decimals=d):
                 spec = arbitrary(rnd, E.gen_engine(rnd, activations=tuple(c08.METHODS), d=d, descriptions=True, infinite=True, max_rules=rnd.choice([4, 4, 9]), kinds=("integral", "ts", "ts", "tsukamoto", "inverse")))
+                if rnd.random() < 0.4:
+                    spec = E.exotic(rnd, spec, empty_engine_name=False)  # the encapsulating class is named after the engine
+                    ctx.hit("workload:exotic configuration")
                 if rnd.random() < 0.3:  # long lists (more than reprlib's default of six items)
                     v = rnd.choice(spec["inputs"])
                     lo_, hi_ = (v["minimum"] if math.isfinite(v["minimum"]) else -5.0), (v["maximum"] if math.isfinite(v["maximum"]) else 5.0)
@@ -193,7 +196,7 @@ def same_outputs(ctx, fl, rnd, spec, engine, back):
     if any(not r["enabled"] for rb in spec["blocks"] for r in rb["rules"]):
         ctx.hit("skipped:identical outputs not required when a rule is disabled (recorded finding)")
         return
-    general = all(rb["activation"]["cls"] == "General" for rb in spec["blocks"])
+    general = all(rb["activation"] and rb["activation"]["cls"] == "General" for rb in spec["blocks"])
     rows = E.rows(rnd, spec, 5)
     blocks = [[r] for r in rows[:3]] + ([rows[3:]] if general else [[r] for r in rows[3:]])
     fresh = E.build(fl, spec)
